@@ -536,3 +536,6 @@ V("c02-line-position-in-chars-2", "C02", "rich/_wrap.py", "            elif line
 V("c10-live-transient-negated", "C10", "rich/live.py", "            if self.transient:\n                self.console.control(self._live_render.restore_cursor())\n", "            if not self.transient:\n                self.console.control(self._live_render.restore_cursor())\n", "R10.18")
 V("c10-liverender-height-min", "C10", "rich/live_render.py", "                max(height1, height2),\n", "                min(height1, height2),\n", "R10.2")
 V("c05-align-no-truncate", "C05", TX7, "        self.truncate(width)\n        excess_space = width - cell_len(self.plain)\n", "        excess_space = width - cell_len(self.plain)\n", "R5.8")
+V("c05-getitem-zero-wraps", "C05", TX7, "            if slice < 0:\n                slice += len(self.plain)\n", "            if slice <= 0:\n                slice += len(self.plain)\n", "R5.9")
+V("c19-cr-test-negated", "C19", AN, '                if "\\r" in plain_text:\n', '                if "\\r" not in plain_text:\n', "R19.15")
+V("c19-cr-rsplit-swapped", "C19", AN, '                    plain_text = plain_text.rsplit("\\r", 1)[-1]\n', '                    plain_text = plain_text.rsplit("\\r", 1)[0]\n', "R19.15")
